@@ -260,6 +260,29 @@ func RunHelpCase(d *Def, n int) (res Res) {
 			b.Cleanup()
 		}
 	}
+	// (d) Help() of the level's own GetOpt object without any Parse; (e) the text put together from its sections
+	{
+		var w bytes.Buffer
+		getoptions.Writer = &w
+		b := Build(cfg)
+		if g := b.GOpts[n-1]; g != nil {
+			texts = append(texts, g.Help())
+			body := g.Help(getoptions.HelpSynopsis, getoptions.HelpCommandList, getoptions.HelpOptionList)
+			name := g.Help(getoptions.HelpName)
+			rest := strings.TrimPrefix(texts[0], name) // the name section is there for commands and for described programs
+			if strings.HasPrefix(rest, body) {
+				tail := rest[len(body):]
+				if tail == "" || (strings.HasPrefix(tail, "Use '") && strings.HasSuffix(tail, " for extra details.\n") && strings.Count(tail, "\n") == 1) {
+					texts = append(texts, texts[0])
+				} else {
+					texts = append(texts, "sections: unexpected tail "+tail)
+				}
+			} else {
+				texts = append(texts, "sections: "+name+body)
+			}
+		}
+		b.Cleanup()
+	}
 	res.Help = ParseHelp(texts[0], cfg.nodePath(n))
 	res.Help.Paths = len(texts)
 	res.Help.Three = true
